@@ -169,18 +169,18 @@ PROPERTY = {
         'text': "Lean 4 theorems over a model of the rolling appender (deadline arithmetic, file names as a function of the period index, should_rollover / advance_date / refresh_writer / prune_old_logs): round_is_floor, "
                 "lands_in_period (for every rotation with a period, every prefix/suffix/limit and EVERY history whose clock does not step back out of the open period — exact boundaries, multi-period jumps, any calendar date — "
                 "each write is appended to the file named for the period containing its time), no_rotation_backwards, never_is_one_file, one_rotation (of any number of compare-exchanges on one expired deadline exactly the "
-                "first succeeds), prune_bound (at most max-1 of the appender's files survive the prune step, so at most max after the rotation) and prune_oldest_first. Facts about rolling.rs (deadline from NOW, CAS, prune "
+                "first succeeds), names_injective (two instants get the same file name exactly when they lie in the same period: the day-number to year-month-day conversion is injective — every day of the 400-year era checked by kernel evaluation and lifted to all days —, padded decimals determine their value and the dashes split the name unambiguously) with same_file_iff_same_period, prune_bound (at most max-1 of the appender's files survive the prune step, so at most max after the rotation) and prune_oldest_first. Facts about rolling.rs (deadline from NOW, CAS, prune "
                 "arithmetic and order, date formats) are extracted on every run. The model is compared with the real appender under a scripted clock (hook) over a scratch directory, through both the Write and the MakeWriter "
                 "interface and with 2-8 threads released at one boundary; an independent calendar (python datetime) judges names, uniqueness of stored lines and the file limit.",
         'note': "Trusted: Lean kernel; propext/Classical.choice/Quot.sound; the file system (creation timestamps strictly increasing: the executor spaces file-creating operations by 12 ms, more than a kernel tick; append-mode writes are whole); the Gregorian date of a "
-                "day number in the model (Hinnant's civil_from_days) is checked against the real `time` crate and python's calendar by the differential run, not proved; pre-1970 instants are outside the property's range; "
+                "day number in the model (Hinnant's civil_from_days) is checked against the real `time` crate and python's calendar by the differential run (that it is the RIGHT date is not proved; that it is injective is); pre-1970 instants are outside the property's range; "
                 "foreign files in the directory are not generated.",
         'technique': 'Lean 4 proof (arithmetic of periods, invariant over histories, permutation/sortedness of the prune step) + differential run of the real appender under a scripted clock + independent-calendar judge',
     },
     'lean_module': 'TracingModel.Props.C16',
     'namespace': 'C16',
     'units': ['RollingFacts'],
-    'required_theorems': ['C16.code_facts', 'C16.round_is_floor', 'C16.lands_in_period', 'C16.no_rotation_backwards', 'C16.never_is_one_file', 'C16.one_rotation', 'C16.prune_bound', 'C16.prune_oldest_first'],
+    'required_theorems': ['C16.code_facts', 'C16.round_is_floor', 'C16.lands_in_period', 'C16.no_rotation_backwards', 'C16.never_is_one_file', 'C16.one_rotation', 'C16.prune_bound', 'C16.prune_oldest_first', 'C16.names_injective', 'C16.same_file_iff_same_period'],
     'streams': [_s],
     'rule': 'one case = one process: rotation minutely/hourly/daily/never, prefix/suffix combinations, file limit none/1/2/3/5, a first instant drawn from month/year ends, leap days (2000, 2024, 2100), 1970, 2038, 9999 or random, '
             'then 6-24 ops: clock steps (inside the period, exactly onto / just past a boundary, 2-50 periods ahead, backwards, standing still), writes through io::Write and through make_writer, 2-8 threads released together '
